@@ -18,11 +18,24 @@ Import ListNotations.
 Open Scope string_scope.
 Open Scope list_scope.
 
-Lemma subst_inref : forall n d sc f v, rec_get sc "inputs" = Some v ->
-  subst d (scope_map n d sc) (EInRef f) = EDot (value_to_ast n d v) f /\
-  subst d (scope_map n d sc) (EInRef f) = subst d (scope_map n d sc) (EDot (EId "inputs") f).
+Lemma subst_concat_ast : forall d m l acc, subst d m acc = acc -> subst d m (concat_ast acc l) = concat_ast acc l.
+Proof. intros d m l; induction l as [|p l IH]; intros acc H; cbn [concat_ast]; [exact H|]. apply IH. cbn [subst]. rewrite H. reflexivity. Qed.
+Lemma subst_str_to_ast : forall d m s, subst d m (str_to_ast s) = str_to_ast s.
 Proof.
-  intros n d sc f v H. cbn [subst]. rewrite scope_map_get, H. cbn [option_map]. split; reflexivity.
+  intros d m s. unfold str_to_ast. destruct (both_quotes s); [|reflexivity].
+  destruct (split_dq s ""); [reflexivity|]. apply subst_concat_ast. reflexivity.
+Qed.
+Lemma subst_inref : forall n d sc f v, rec_get sc "inputs" = Some v ->
+  subst d (scope_map n d sc) (EInRef f) =
+    (if is_valid_identifier f then EDot (value_to_ast n d v) f else EAccess (value_to_ast n d v) (str_to_ast f)) /\
+  (is_valid_identifier f = true ->
+   subst d (scope_map n d sc) (EInRef f) = subst d (scope_map n d sc) (EDot (EId "inputs") f)) /\
+  (is_valid_identifier f = false ->
+   subst d (scope_map n d sc) (EInRef f) = subst d (scope_map n d sc) (EAccess (EId "inputs") (str_to_ast f))).
+Proof.
+  intros n d sc f v H. cbn [subst]. rewrite scope_map_get, H. cbn [option_map].
+  split; [reflexivity|]. split; intros E; rewrite E; [reflexivity|].
+  f_equal. symmetry. apply subst_str_to_ast.
 Qed.
 Lemma subst_inref_absent : forall n d sc f, rec_get sc "inputs" = None ->
   subst d (scope_map n d sc) (EInRef f) = EInRef f.
@@ -53,16 +66,20 @@ Section Sound.
     evalE c (EInRef f) = (dot_val v f, c).
   Proof. intros c f v H. cbn [Eval.evalE]. rewrite H. destruct v; reflexivity. Qed.
 
-  (* THE REPAIRED LAW: the emitted form of `#field` evaluates in every configuration c (the program that
-     loads the function, with whatever inputs of its own) to what `#field` gave in a configuration c0 whose
-     `inputs` was the captured value, and touches nothing *)
+  (* THE REPAIRED LAW: the emitted form of `#field` evaluates in every configuration c (the program that loads
+     the function, with whatever inputs of its own) to what `#field` gave in a configuration c0 whose `inputs` was
+     the captured value, and touches nothing.  For a field that is not a valid identifier (a reserved word: `#if`)
+     the emitted form is the index `<inputs>["if"]`: indexing a record by a string is the field access, and indexing
+     anything else by a string fails like the field access does (Expr::Access arm of evaluate_ast) *)
   Theorem inref_emission_sound : forall n d sc f v c0 c,
-    rec_get sc "inputs" = Some v -> emittable_gen v = true ->
+    rec_get sc "inputs" = Some v -> emittable_gen v = true -> both_quotes f = false ->
     lookup (snd c0) "inputs" = Some v ->
     evalE c (subst d (scope_map n d sc) (EInRef f)) = (fst (evalE c0 (EInRef f)), c).
   Proof.
-    intros n d sc f v c0 c Hsc Hem Hin.
-    rewrite (proj1 (subst_inref n d sc f v Hsc)), (inref_eval c0 f v Hin). cbn [fst Eval.evalE].
-    rewrite (lit_roundtrip release binop_impl apply n d v Hem c). reflexivity.
+    intros n d sc f v c0 c Hsc Hem Hq Hin.
+    rewrite (proj1 (subst_inref n d sc f v Hsc)), (inref_eval c0 f v Hin). cbn [fst].
+    destruct (is_valid_identifier f); cbn [Eval.evalE];
+      rewrite (lit_roundtrip release binop_impl apply n d v Hem c); [reflexivity|].
+    unfold str_to_ast. rewrite Hq. cbn [Eval.evalE]. destruct v; reflexivity.
   Qed.
 End Sound.
